@@ -11,8 +11,8 @@ from .. import aoef as A
 from .. import aoefgen as GG
 from .C02 import reachable  # independent walker (pydantic introspection)
 
-DIRS = ["data", "audio", "site A", "2023", "dé", "x.y", "ñandú", "recordings", "a b c", "深い"]
-FILES = ["a.wav", "b c.wav", "ñandú.wav", "r.flac", "noext", "x.y.z.wav", "录音.wav"]
+DIRS = ["data", "audio", "site A", "2023", "dé", "x.y", "ñandú", "recordings", "a b c", "深い", "estacio\u0301n norte", " lead", "trail "]  # incl. decomposed unicode
+FILES = ["a.wav", "b c.wav", "ñandú.wav", "r.flac", "noext", "x.y.z.wav", "录音.wav", "grabacio\u0301n 1.wav", "a\u030a.wav"]
 
 
 def recordings_of(obj):
